@@ -582,6 +582,11 @@ class ExprMixin:
 
     # ------------------------------------------------------------------ calls
     def e_SimpleCallNode(self, n, fr):
+        if isinstance(n.function, E.AttributeNode) and n.function.attribute == "evalf" and not n.args and exact():
+            obj = self.eval(n.function.obj, fr)
+            if getattr(obj, "is_Rational", False):
+                return obj          # reals for doubles: a rational constant is taken exactly
+            return obj.evalf()
         f = self.eval_callee(n.function, fr)
         args = self._seq(n.args, fr)
         return self.call(f, args, {}, fr, n)
